@@ -26,6 +26,7 @@ import (
 	"github.com/vechain/thor/v2/comm"
 	"github.com/vechain/thor/v2/test/testchain"
 	"github.com/vechain/thor/v2/thor"
+	"github.com/vechain/thor/v2/tx"
 	"github.com/vechain/thor/v2/txpool"
 
 	"verif/harness/internal/hx"
@@ -72,7 +73,14 @@ func remoteChain(n int, seed uint64, big int) *testchain.Chain {
 	r := hx.NewRand(seed)
 	for i := 1; i <= n; i++ {
 		var err error
-		if r.Chance(1, 2) || big > 0 {
+		if big < 0 && i == 3 {
+			// one block that alone exceeds the 512 KiB batch budget of the serving side (nine ~60 KB zero-data txs)
+			var txs []*tx.Transaction
+			for k := 0; k < 9; k++ {
+				txs = append(txs, transfer(c, k, uint64(i)<<20|uint64(k)<<8|seed&0xff, 60000))
+			}
+			err = c.MintBlock(txs...)
+		} else if r.Chance(1, 2) || big > 0 {
 			err = c.MintBlock(transfer(c, r.Intn(9), uint64(i)<<20|seed&0xfffff, big))
 		} else {
 			err = c.MintBlock()
@@ -253,18 +261,28 @@ func reported(ctx *hx.Ctx, class string) bool {
 	return false
 }
 
+var hangs int
+
 func pairCanonical(pc *PairCase) string {
 	return fmt.Sprintf("pair %s %d %d %d %d %d", pc.Mode, pc.RemoteLen, pc.Div, pc.LocalExtra, pc.Seed, pc.BigTx)
 }
 
 func doPair(ctx *hx.Ctx, pc *PairCase) {
+	if hangs >= 2 {
+		return // the sync code hangs on this tree: reported already, do not pile up stuck goroutines
+	}
 	class, summary, found := runPair(ctx, pc)
 	nontrivial := pc.Mode == "fork" || pc.Mode == "heavier" || (pc.Mode == "prefix" && pc.RemoteLen-pc.Div > 1)
 	ctx.Cov.Case(pairCanonical(pc), nontrivial, pc)
 	ctx.Cov.Count("pair_mode_" + pc.Mode)
 	ctx.Cov.Bucket("pair_head", pc.Div+pc.LocalExtra)
 	if class != "" && !reported(ctx, class) {
-		ctx.Violation(class, summary, shrinkPair(ctx, pc, class), found)
+		if strings.HasSuffix(class, "-hang") {
+			ctx.Violation(class, summary, pc, found) // no shrinking of hanging cases (each attempt costs the time-out)
+			hangs++
+		} else {
+			ctx.Violation(class, summary, shrinkPair(ctx, pc, class), found)
+		}
 	}
 }
 
@@ -317,6 +335,11 @@ func partA(ctx *hx.Ctx, rnd *hx.Rand) {
 	for _, d := range []int{0, 1, H / 3, H / 2, H - 3, H - 1} {
 		doPair(ctx, &PairCase{"pair", "heavier", H, d, (H-d)*2 + 3, seed, 0})
 	}
+	// a remote chain with one block larger than the serving side's batch budget, local below / at / above it
+	for _, d := range []int{0, 2, 3, 5} {
+		doPair(ctx, &PairCase{"pair", "prefix", 6, d, 0, 11, -1})
+	}
+	doPair(ctx, &PairCase{"pair", "fork", 6, 1, 2, 11, -1})
 	// random pairs over other remote chains, including big blocks (several batches per download)
 	nRand := ctx.Scale(12, 150)
 	for i := 0; i < nRand; i++ {
